@@ -70,15 +70,28 @@ def ctx_gcm(vectors, open_):
     return out
 
 
-def run_routine(chk, fname, routine, contexts, workers=4, timeout=1800, maxsteps=400000):
+def ctx_arm64_x16():
+    # cryptoBlockAsmX16Internal(rk, dst, src, tmp) as its only caller uses it: tmp = dst (256 bytes)
+    return [("blocks=16,tmp=dst", {0: Q("rk"), 8: Q("dst"), 16: Q("src"), 24: Q("dst")},
+             {"rk": (128, True, False), "dst": (256, True, True), "src": (256, True, False)}, 32, 0)]
+
+
+def ctx_xor(n):
+    return [("xor%d" % n, {0: Q("dst"), 8: Q("src1"), 16: Q("src2")},
+             {"dst": (n, True, True), "src1": (n, True, False), "src2": (n, True, False)}, 24, 0)]
+
+
+def run_routine(chk, fname, routine, contexts, workers=4, timeout=1800, maxsteps=400000, arch="amd64"):
     """-> list of dict(ctx, steps, errs[list], acc{region: (rlo, rhi, wlo, whi)}, nsb)"""
     progs = chk.extra.setdefault("_asm_progs", {})
     if fname not in progs:
-        progs[fname] = asmx.routines(os.path.join(core.REPO, "sm4", fname))
+        progs[fname] = asmx.routines(os.path.join(core.REPO, "sm4", fname), arch)
+    chk.extra.pop("_asm_progs_keep", None)
     if routine not in progs[fname]:
         raise core.Infra("routine %s not found in the listing of %s" % (routine, fname))
     prog = progs[fname][routine]
-    rodata = asmx.globl_sizes([os.path.join(core.REPO, "sm4", f) for f in RODATA_FILES])
+    rodata = asmx.globl_sizes([os.path.join(core.REPO, "sm4", f) for f in
+                               (RODATA_FILES if arch == "amd64" else ["asm_arm64.s", "gcm_arm64.s"])])
     src = core.stage_specs(chk.rd)
     d = os.path.join(chk.rd, "asm_%s_%d" % (routine, random.randrange(1 << 30)))
     os.makedirs(d)
